@@ -192,11 +192,12 @@ PROPS["C21"] = dict(
 
 PROPS["C22"] = dict(
     units=[("verus", "iobuiltins"), ("verus", "fileio"), ("verus", "pcapbuiltins")],
-    explanation="With every OS call replaced by a shim that may fail arbitrarily: flush on a writer/stdout/stderr always returns Ok(object) (no expect/unwrap reachable, "
-                "no runtime error); open with well-formed arguments always returns Ok(object); pcap_stream with a wrong arity is a runtime error (not an index panic) and with "
+    explanation="With every OS call replaced by a shim that fails exactly when an uninterpreted flag says so: flush on a writer/stdout/stderr returns an error OBJECT when the OS fails and null otherwise (no expect/unwrap reachable, "
+                "no runtime error); read_line (file or stdin) and read_to_string return an error object when the OS read fails and a string otherwise (read_to_string: or the UTF-8 error object); write to a file writer returns an error object "
+                "when the OS write fails and the byte count otherwise, for a byte, an array of bytes, a string or a packet (all three element loops verified), and is a runtime error only for the documented misuse; open with well-formed arguments always returns Ok(object); pcap_stream with a wrong arity is a runtime error (not an index panic) and with "
                 "stdin/stdout always Ok(object); pcap_open returns the error object of a failed open unchanged; read_from_file turns a failing read into an error object; pcap_read_next / pcap_read_all return an error object (never a runtime error) for a damaged record and null / the records read so far at end of input; pcap_write returns an error object exactly when the OS write fails.",
-    not_covered=["read_line, read_to_string, write (same pattern, not under contract; exercised by the bounded stand-in)",
-                 "that the object returned on an OS failure is the Err variant carrying that failure (the shim's result is not visible in the postcondition; only Ok-ness and panic-freedom are)"],
+    not_covered=["builtin_read's argument handling around read_from_file (read_from_file itself is under contract); print!/eprint! to a closed stdout/stderr (std panics there; listed)",
+                 "that the error object carries THAT failure's errno (only its being an error object is stated)"],
     assumptions=["the OS shims' results are arbitrary Result values (no assumption on the OS)"],
     trusted=COMMON_TRUST,
 )
